@@ -130,6 +130,24 @@ _inp("C11", "exhaustive enumeration of tie-heavy worlds x segment layouts x sort
   "Every multiset of 4 (quick) / 3-6 (thorough) tie-prone document shapes x every segment layout, plus 22/24-document tie worlds over 1-4 segments x 3 queries x 8 sort plans x {bm25, wand, bmw} x page size 1..7: concatenated pages equal the single covering response (ids, order, scores), no duplicates, last page without next_cursor, total_hits_estimate <= true matches (== for bm25); every cursor is rejected under every other sort plan, after a commit that adds a segment and after compaction.",
   "Trusted: the covering request as reference (ordering itself is C10's concern); cursors re-used after a delete-only commit are not required to be rejected.")
 
+# Families added after the seeded-change waves (DESIGN.md §10); appended to the level text.
+EXTRA = {
+  "C07": " Also: bool trees with nested bool under must / should crossed with minimum_should_match.",
+  "C08": " Also: sparse nested objects (a later object omits a nullable property an earlier one has) next to dense documents in the same segment.",
+  "C10": " Also a large-tie sweep: 24-64 documents in 1-3 tie classes x 17 sort plans x 8 query / execution combinations; every page must be a prefix of the covering response.",
+  "C12": " Also a gap family: every ordered pair of k-subsets of a value grid in two segments x 13 histogram / date_histogram trees.",
+  "C13": " Also custom-scoring queries that drop documents (function_score min_score, script_score returning no value) and a request kind without top_hits.",
+  "C14": " Also a flag matrix: one field (top-level or nested) unstored under every indexed / fast combination; compaction may succeed with nothing observable changed or refuse with nothing changed.",
+  "C15": " Also schema-derived dotted top-level keys (nested paths and field names extended by one or two segments) x 9 JSON value shapes.",
+  "C16": " Also a UTF-8 boundary alphabet (per encoded length: minimal / middle / maximal last byte, first and last code point) as indexed tokens and at every term-expansion site.",
+  "C17": " Also damage under a live Index handle (open and read intact, damage any segment file, reader() again on the same handle); every mutant runs in a worker subprocess.",
+  "C18": " Also rescore variants (window 1-3 x 3 score modes) crossed with collapse, judged against the same rescored request without collapse.",
+  "C20": " Also a score-tie sweep: 24-64 documents x 10 sort plans (multi-key, led by _score or by a field) x limit {1,3,5} x the first three pages.",
+  "C22": " Also a multi-byte family (2-, 3-, 4-byte characters at start / middle / end of tokens with ASCII edits next to them) with a completeness oracle on character edit distance.",
+  "C24": " Also an echoed-input family: 119 request locations the server may quote back x names of 1-4 byte characters at every byte phase x a dense length sweep around every power of two up to the body limit.",
+  "C25": " Also a body-delivery family: the same /add and /bulk bodies with multi-byte text as Content-Length, as chunked transfer encoding split at every byte offset and with chunk sizes 1-3, and as two socket writes.",
+}
+
 NOT_YET = "check not built yet in this session (see DESIGN.md §3 for the planned engine); no verdict is claimed"
 NOT_APPLICABLE = {}
 
@@ -141,6 +159,7 @@ def main():
     if pid not in CHECKS:
       continue
     cat, tech, text, note, ref = CHECKS[pid]
+    text = text + EXTRA.get(pid, "")
     checks.append({
       "property_id": pid,
       "quick_cmd": f"./check {pid} quick",
